@@ -30,6 +30,8 @@ from vf.core import exc_site
 from vf.core import short
 from vf.gen import c50_bodies as B
 from vf.gen import c50_dnsgen as G
+from vf.gen.c50_timeout import Hang
+from vf.gen.c50_timeout import guard
 from vf.ref import c50_dns as D
 from wsproto.frame_protocol import Opcode
 
@@ -49,6 +51,7 @@ RULE = (
 )
 ASSUMPTIONS = [
     "control character = Unicode general category Cc other than TAB/LF/CR (same definition as C49)",
+    "a call counts as not returning when it is blocked without consuming CPU for 1.3 s, or still running after 10 s",
     "bodies are capped at ~3 kB and nesting depth <= 6 (the protobuf view is super-linear in nesting depth; resource exhaustion is not part of the property)",
     "for TCP and HTTP wrappers the DNS view expects the 2-byte length prefix, so DNS messages are supplied length-prefixed there and bare for UDP/DNSMessage wrappers",
     "a DNSMessage whose own .packed raises has no message body and is outside the domain (counted as dnsmessage_without_body)",
@@ -143,11 +146,26 @@ def classify_ctl(chars):
     return None
 
 
+def classify_hang(h):
+    """Where the call was blocked (observed stack, not a message): the vendored WBXML decoder waits on an empty queue.Queue
+    when the body ends inside a token."""
+    if h.kind == "blocked" and any("/contrib/wbxml/ASWBXMLByteQueue.py" in x for x in h.frames[:6]):
+        return "wbxml-view-blocks-forever-on-truncated-input"
+    return None
+
+
 def render(ctx, m, f, view, what):
     """Run prettify_message under both render monitors. Returns the result or None."""
     ctx.count("render_total")
     try:
-        res = contentviews.prettify_message(m, f, view)
+        with guard():
+            res = contentviews.prettify_message(m, f, view)
+    except Hang as h:
+        # the call does not return: blocked without using CPU (or still busy after 10 s)
+        where = next((x for x in h.frames if "/mitmproxy/" in x), h.frames[0] if h.frames else "?")
+        ctx.seen("hang_sites", f"{h.kind}@{where.split('/mitmproxy/')[-1]}")
+        ctx.violation(f"prettify-does-not-return:{h.kind}", {**what, "where": where}, mechanism=classify_hang(h))
+        return None
     except BaseException as e:  # noqa: Rust panics are BaseException
         if isinstance(e, (KeyboardInterrupt, SystemExit, MemoryError)):
             raise
@@ -193,7 +211,7 @@ def idna_ok(lab: bytes):
 def yaml_escaped(c):
     """characters a YAML emitter must write as an escape sequence inside a double-quoted scalar"""
     o = ord(c)
-    return o < 0x20 and c not in "\t\n" or 0x7F <= o <= 0x9F or c in '"\\\u2028\u2029\ufeff' or 0xD800 <= o <= 0xDFFF or o in (0xFFFE, 0xFFFF)
+    return o < 0x20 or 0x7F <= o <= 0x9F or c in '"\\\u2028\u2029\ufeff' or 0xD800 <= o <= 0xDFFF or o in (0xFFFE, 0xFFFF)
 
 
 FOLD = "dns-view-yaml-fold-after-escape-inserts-space"
